@@ -424,7 +424,13 @@ class XformRelay(Actor):
                 k = self.rng.randrange(1, len(rrs))
                 rrs = rrs[k:] + rrs[:k]
             self.stats["rr_reordered"] = self.stats.get("rr_reordered", 0) + 1
-        out = proto.build_answer_raw(q.id, labels, t, rrs, rcode=a.rcode, aa=False, qclass=c)
+        rcode = a.rcode
+        if getattr(self, "chase_cname", False) and t == proto.T_A and any(rt == proto.T_CNAME for rt, _d in rrs):
+            # a recursive resolver chases the CNAME it got for an A question, finds nothing behind the made-up target and
+            # hands the CNAME record back together with NXDOMAIN
+            rcode = 3
+            self.stats["cname_chased"] = self.stats.get("cname_chased", 0) + 1
+        out = proto.build_answer_raw(q.id, labels, t, rrs, rcode=rcode, aa=False, qclass=c)
         limit = self.size_limit
         if not (self.edns0 is True and client_edns):
             limit = 512 if limit is None else min(limit, 512)
